@@ -48,6 +48,10 @@ fn main() {
             _ => { opts.extra.push(args[i].clone()); i += 1; }
         }
     }
+    // sequential ops: a case that never returns is reported as that case (see util::start_monitor)
+    if ["meta", "sched", "cands", "instev", "daemon", "build", "ser", "plan"].contains(&op.as_str()) {
+        util::start_monitor(&opts, &op, std::time::Duration::from_secs(if opts.tier == "thorough" { 300 } else { 120 }));
+    }
     match op.as_str() {
         "frame" => frame::main(&opts),
         "reply" => reply::main(&opts),
